@@ -438,7 +438,7 @@ def r03e(ctx):
     b, mt = m.method(q, "bounds"), m.method(q, "matching")
     ok_b = False
     for lp in walk_no_nested(b.node):
-        if isinstance(lp, ast.For) and ast.unparse(lp.iter).replace(" ", "") == "self._match.items()":
+        if isinstance(lp, ast.For) and ast.unparse(lp.iter).replace(" ", "") in ("self._match.items()", "self._match.values()"):
             names = [x.id for x in ast.walk(lp.target) if isinstance(x, ast.Name) and x.id != "_"]
             for e_ in names:
                 if pat.has(f"L += {e_}.bounds().lower_bound", lp, stmts=True) and pat.has(f"U += {e_}.bounds().upper_bound", lp, stmts=True):
@@ -446,7 +446,8 @@ def r03e(ctx):
     rets = [r for r in walk_no_nested(mt.node) if isinstance(r, ast.Return)]
     ok_m = rets and all(self_attr(r.value) == "_match" for r in rets)
     me = m.method(m.need_class("MultiSetEdit"), "edits")
-    ok_e = "self._matcher.matching.items()" in ast.unparse(me.node).replace(" ", "")
+    me_txt = ast.unparse(me.node).replace(" ", "")
+    ok_e = "self._matcher.matching.items()" in me_txt or "self._matcher.matching.values()" in me_txt
     if ok_b and ok_m and ok_e:
         ctx.proved("R03e", b.file, "WeightedBipartiteMatcher.bounds", b.node, "one matching for cost and script",
                    "bounds() sums self._match's edges; matching returns self._match; MultiSetEdit.edits lists its edges")
